@@ -323,7 +323,20 @@ class _IsAttrFactory(_BeartypeValidatorFactoryABC):
             #   the code generated by this validator.
             # * Value is the value of this attribute of the arbitrary object
             #   being validated by this code.
-            local_name_attr_value = f'{{obj}}_isattr_{attr_name}'
+            #
+            # Note that this name intentionally does *NOT* embed the "{obj}"
+            # format variable. That variable expands to an arbitrary Python
+            # expression (e.g., "__beartype_pith_0[...]" when this validator
+            # annotates an item of a container) rather than to a valid Python
+            # identifier, in which case suffixing that expression would yield
+            # a syntactically invalid assignment expression target. This name
+            # is instead uniquified by the identifier of the child validator,
+            # which this validator necessarily outlives. Two validators sharing
+            # both the same attribute name and child validator *CANNOT* be
+            # nested in one another and thus never clobber this variable while
+            # its value is still needed.
+            local_name_attr_value = (
+                f'__beartype_isattr_{attr_name}_{id(attr_validator)}')
 
             #FIXME: *OVERKILL.* The "VALE_CODE_CHECK_ISATTR_VALUE_EXPR" and
             #"VALE_CODE_CHECK_ISATTR_TEST" globals are *ONLY* ever accessed in
